@@ -4,10 +4,11 @@ from __future__ import annotations
 
 import ast
 
-from ..absval import Interp, Obj, Sym, Unknown
+from ..absval import Interp, Obj, RaiseSignal, Sym, Unknown
 from ..model import AnchorMissing, Class, Func, Undecided, dotted, norm, walk_no_nested
 from ..report import Ctx
 from ..variants import Variant
+from .common import make_metric_objs
 from .aggrun import KEYS, new_session
 from .arrdom import AArr
 from .c19 import deep_eq
@@ -75,6 +76,76 @@ def _idempotent_insert(f: Func, call: ast.Call) -> bool:
                 if len(node.body) == 1 and isinstance(node.body[0], ast.Expr) and node.body[0].value is call:
                     return True
     return False
+
+
+_REPORT_CALLS = ("warnings.warn", "warn", "print", "logging.", "logger.", "log.", "_logger.", "LOGGER.")
+
+
+def _is_report_stmt(st: ast.stmt, gname: str) -> bool:
+    """A statement with no effect on values: a warning / log / print call, or an insertion into the registry itself."""
+    if not (isinstance(st, ast.Expr) and isinstance(st.value, ast.Call)):
+        return False
+    d = dotted(st.value.func) or ""
+    if d in (f"{gname}.add", f"{gname}.append"):
+        return True
+    return d in ("warnings.warn", "warn", "print") or d.split(".")[0] in ("logging", "logger", "log", "_logger", "LOGGER", "_log")
+
+
+def _report_only_registry(prog, m, gname: str) -> bool:
+    """The module-level container `gname` only decides whether something is *reported* (warn-once
+    registries): every read of it in the package is either the insertion itself or the test of an `if`
+    whose two continuations differ in nothing but report statements and insertions into it."""
+    dump = lambda sts: [norm(x) for x in sts]
+    n_reads = 0
+    for f in prog.package_functions():
+        if prog.resolve_name(f.module, gname) != ("global", m, gname) and f.module is not m:
+            continue
+        parents = {}
+        for node in ast.walk(f.node):
+            for ch in ast.iter_child_nodes(node):
+                parents[ch] = node
+        for node in ast.walk(f.node):
+            if not (isinstance(node, ast.Name) and node.id == gname and isinstance(node.ctx, ast.Load)):
+                continue
+            if f.module is not m and prog.resolve_name(f.module, gname) != ("global", m, gname):
+                continue
+            n_reads += 1
+            par = parents.get(node)
+            # receiver of the insertion
+            if isinstance(par, ast.Attribute) and par.attr in ("add", "append") and isinstance(parents.get(par), ast.Call) and parents[par].func is par and isinstance(parents.get(parents[par]), ast.Expr):
+                continue
+            # inside the test of an if
+            cur, test_of = node, None
+            while cur in parents:
+                up = parents[cur]
+                if isinstance(up, ast.If) and cur is up.test:
+                    test_of = up
+                    break
+                if isinstance(up, ast.stmt):
+                    break
+                cur = up
+            if test_of is None:
+                return False
+            body = [st for st in test_of.body if not _is_report_stmt(st, gname)]
+            orelse = [st for st in test_of.orelse if not _is_report_stmt(st, gname)]
+            if not body and not orelse:
+                continue
+            holder = parents.get(test_of)
+            blk = None
+            for fld in ("body", "orelse", "finalbody"):
+                b = getattr(holder, fld, None)
+                if isinstance(b, list) and test_of in b:
+                    blk = b
+            if blk is None:
+                return False
+            rest = [st for st in blk[blk.index(test_of) + 1 :] if not _is_report_stmt(st, gname)]
+            term = (ast.Return, ast.Continue, ast.Break, ast.Raise)
+            if body and not orelse and isinstance(body[-1], term) and dump(body) == dump(rest[: len(body)]):
+                continue
+            if orelse and not body and isinstance(orelse[-1], term) and dump(orelse) == dump(rest[: len(orelse)]):
+                continue
+            return False
+    return n_reads > 0
 
 
 def _bad_stores(it):
@@ -281,18 +352,27 @@ def check_mutable_defaults(ctx: Ctx):
 def check_pools(ctx: Ctx):
     prog = ctx.prog
     n = 0
+    helpers = verified_map_helpers(prog)
     for f in prog.package_functions():
+        # names bound to a pool: `with Pool() as p`, `p = Pool()`
+        pool_vars = set()
         for node in walk_no_nested(f.node):
             if isinstance(node, ast.With):
                 for it in node.items:
                     ce = it.context_expr
-                    if isinstance(ce, ast.Call) and (dotted(ce.func) or "").split(".")[-1] in ("Pool", "NonDaemonicPool", "ThreadPool") and isinstance(it.optional_vars, ast.Name):
-                        pv = it.optional_vars.id
-                        for c in ast.walk(node):
-                            if isinstance(c, ast.Call) and isinstance(c.func, ast.Attribute) and isinstance(c.func.value, ast.Name) and c.func.value.id == pv:
-                                n += 1
-                                ok = c.func.attr in ("starmap", "map")
-                                ctx.decide("R15.5", f, c, f"{f.qual}:{pv}.{c.func.attr}", "pool results are collected through an order-preserving API and paired with inputs by position", ok if ok or c.func.attr in ("imap_unordered", "apply_async", "map_async", "starmap_async") else None, {"method": c.func.attr}, nontrivial=False)
+                    if isinstance(ce, ast.Call) and (dotted(ce.func) or "").split(".")[-1] in _POOLS and isinstance(it.optional_vars, ast.Name):
+                        pool_vars.add(it.optional_vars.id)
+            if isinstance(node, ast.Assign) and isinstance(node.value, ast.Call) and (dotted(node.value.func) or "").split(".")[-1] in _POOLS:
+                pool_vars |= {t.id for t in node.targets if isinstance(t, ast.Name)}
+        for c in walk_no_nested(f.node):
+            if isinstance(c, ast.Call) and isinstance(c.func, ast.Attribute) and isinstance(c.func.value, ast.Name) and c.func.value.id in pool_vars and c.func.attr in _MAPS:
+                n += 1
+                ok = c.func.attr in ("starmap", "map")
+                ctx.decide("R15.5", f, c, f"{f.qual}:{c.func.value.id}.{c.func.attr}", "pool results are collected through an order-preserving API and paired with inputs by position", ok if ok or c.func.attr in ("imap_unordered", "apply_async", "map_async", "starmap_async") else None, {"method": c.func.attr}, nontrivial=False)
+            elif isinstance(c, ast.Call) and helpers and f.qual not in helpers:
+                tg = prog.resolve_dotted(f.module, c.func) if isinstance(c.func, (ast.Name, ast.Attribute)) else None
+                if isinstance(tg, Func) and tg.qual in helpers:
+                    n += 1  # work handed to a helper verified order preserving (check_map_helpers)
     if n < 2:
         ctx.undecided("R15.5.floor", None, None, "floor:R15.5", f"{n} pool calls found, confirmed floor is 2")
 
@@ -308,6 +388,8 @@ class _MapHelperInterp(Interp):
 
     def external_call(self, name, args, kwargs, node):
         if name.split(".")[-1] in ("Pool", "NonDaemonicPool", "ThreadPool"):
+            if getattr(self.root, "pool_fails", None):
+                raise RaiseSignal(self.root.pool_fails, node)
             return Sym("pool")
         if name in ("os.cpu_count", "multiprocessing.cpu_count"):
             return self.root.cpu
@@ -328,23 +410,45 @@ class _MapHelperInterp(Interp):
         return super().apply(fv, args, kwargs, node)
 
 
+_POOLS = ("Pool", "NonDaemonicPool", "ThreadPool")
+_MAPS = ("starmap", "map", "imap", "imap_unordered", "apply_async", "starmap_async", "map_async", "apply", "submit")
+
+
 def parallel_map_helpers(prog) -> dict:
     """Package functions that take a worker function and run it over items through a Pool:
-    {qual: (Func, func-param, shared-param | None, items-param, workers-param | None)}"""
+    {qual: (Func, func-param, shared-param | None, items-param, workers-param | None)}.
+    The roles are read from how the parameters are used (the one that is called or handed to a pool
+    method first is the worker function, the one that is iterated is the items), names only break ties."""
     out = {}
     for f in prog.package_functions():
         if f.cls is not None:
             continue
-        names = [p.name for p in f.call_params]
-        fp = next((n for n in names if n.lower() in ("func", "fn", "function", "f", "worker", "callback")), None)
-        ip = next((n for n in names if n.lower() in ("items", "iterable", "args_list", "tasks", "arguments", "argument_list")), None)
-        if fp is None or ip is None:
-            continue
-        uses_pool = any(isinstance(n, ast.Call) and (dotted(n.func) or "").split(".")[-1] in ("Pool", "NonDaemonicPool", "ThreadPool") for n in walk_no_nested(f.node))
+        uses_pool = any(isinstance(n, ast.Call) and (dotted(n.func) or "").split(".")[-1] in _POOLS for n in walk_no_nested(f.node))
         if not uses_pool:
             continue
+        names = [p.name for p in f.call_params]
+        called, iterated = [], []
+        for n in walk_no_nested(f.node):
+            if isinstance(n, ast.Call):
+                if isinstance(n.func, ast.Name) and n.func.id in names:
+                    called.append(n.func.id)
+                if isinstance(n.func, ast.Attribute) and n.func.attr in _MAPS and n.args:
+                    if isinstance(n.args[0], ast.Name) and n.args[0].id in names:
+                        called.append(n.args[0].id)
+                    if len(n.args) > 1 and isinstance(n.args[1], ast.Name) and n.args[1].id in names:
+                        iterated.append(n.args[1].id)
+                if isinstance(n.func, ast.Name) and n.func.id in ("list", "tuple", "enumerate", "zip", "len", "iter") and n.args and isinstance(n.args[0], ast.Name) and n.args[0].id in names:
+                    iterated.append(n.args[0].id)
+            its = [n.iter] if isinstance(n, ast.For) else [g.iter for g in n.generators] if isinstance(n, (ast.ListComp, ast.GeneratorExp, ast.SetComp, ast.DictComp)) else []
+            for it in its:
+                if isinstance(it, ast.Name) and it.id in names:
+                    iterated.append(it.id)
+        fp = next((n for n in names if n.lower() in ("func", "fn", "function", "f", "worker", "callback") and n in called), None) or next((n for n in names if n in called), None)
         sp = next((n for n in names if "shared" in n.lower() or n.lower() in ("common_args", "fixed_args")), None)
-        wp = next((n for n in names if "worker" in n.lower() and n != fp or n.lower() in ("processes", "n_jobs", "n_procs")), None)
+        wp = next((n for n in names if ("worker" in n.lower() and n != fp) or n.lower() in ("processes", "n_jobs", "n_procs")), None)
+        ip = next((n for n in names if n in iterated and n not in (fp, sp, wp)), None)
+        if fp is None or ip is None:
+            continue
         out[f.qual] = (f, fp, sp, ip, wp)
     return out
 
@@ -364,13 +468,18 @@ def verify_map_helper(prog, spec):
                 args[sp] = (A, B)
             if wp:
                 args[wp] = w
-            it = _MapHelperInterp(prog, f, args, cpu=cpu)
-            out = it.run()
-            if out.kind != "return" or out.decisions:
-                return None, {"items": n_items, "workers": w, "cpu_count": cpu, "outcome": f"{out.kind} {out.exc or ''}"}
-            got = out.value
-            if not (isinstance(got, list) and [repr(x) for x in got] == [repr(x) for x in want]):
-                return False, {"items": n_items, "workers": w, "cpu_count": cpu, "got_order": [repr(x.args[-2]) if isinstance(x, Tagged) and len(x.args) >= 2 else repr(x) for x in got] if isinstance(got, list) else repr(got), "want_order": [repr(t[0]) for t in items]}
+            # a helper that guards the start of the pool is also run with a pool that cannot be started
+            guarded = any(isinstance(t, ast.Try) and any(isinstance(c, ast.Call) and (dotted(c.func) or "").split(".")[-1] in _POOLS for b in t.body for c in ast.walk(b)) for t in walk_no_nested(f.node))
+            for fails in ((None, "OSError") if guarded else (None,)):
+                it = _MapHelperInterp(prog, f, dict(args), cpu=cpu)
+                it.root.pool_fails = fails
+                out = it.run()
+                wit0 = {"items": n_items, "workers": w, "cpu_count": cpu, **({"pool_start": fails} if fails else {})}
+                if out.kind != "return" or out.decisions:
+                    return None, {**wit0, "outcome": f"{out.kind} {out.exc or ''}"}
+                got = out.value
+                if not (isinstance(got, list) and [repr(x) for x in got] == [repr(x) for x in want]):
+                    return False, {**wit0, "got_order": [repr(x.args[-2]) if isinstance(x, Tagged) and len(x.args) >= 2 else repr(x) for x in got] if isinstance(got, list) else repr(got), "want_order": [repr(t[0]) for t in items]}
     return True, None
 
 
@@ -529,6 +638,10 @@ def check_globals(ctx: Ctx):
                     hit = norm(node)[:60]
                 if isinstance(t, ast.Subscript) and isinstance(t.value, ast.Name) and t.value.id in m.assigns and t.value.id not in _locals(f):
                     hit = norm(node)[:60]
+            if hit and not idem and isinstance(node, ast.Call) and node.func.attr in ("add", "append"):
+                # a registry that only decides whether a warning is repeated carries no value into any result
+                if _report_only_registry(prog, m, node.func.value.id):
+                    idem = True
             if hit:
                 n += 1
                 ok = f.qual in GLOBAL_TABLE or idem
@@ -585,7 +698,7 @@ def check_metric_call_history(ctx: Ctx):
         return {k: repr(v) for k, v in b.items() if k not in ("reference", "prediction")}
 
     def fresh():
-        return Obj(mv_cls, {"name": "M", "long_name": "M", "decreasing": False, "_metric_function": Sym("kernel:M")})
+        return make_metric_objs(prog, False)[0]
 
     base = run(fresh(), {})
     mv = fresh()
